@@ -245,7 +245,7 @@ Section Sys.
   (* ---- nested schedules: what deterministic pre-emption can realise ---- *)
   Inductive op :=
   | OLookup (id : N) (k : key) (inj : list (nat * list op))   (* injection point -> operations run there *)
-  | ORegister (id : N) (ups : list update) (inj : list op).   (* operations run just before Clear *)
+  | ORegister (id : N) (ups : list update) (inj inj2 : list op).   (* operations run just before / just after Clear *)
 
   Definition sst := (state * list label * list N)%type.  (* state, reversed trace, reversed spawn ids *)
   Definition emit (s : sst) (l : label) : sst :=
@@ -261,6 +261,7 @@ Section Sys.
 
   Definition pt_lock := 100.      (* before registry._lock is acquired *)
   Definition pt_unlock := 101.    (* after it was released *)
+  Definition pt_get := 102.       (* after the attribute was read, before cache.get *)
 
   Fixpoint run_op (fuel : nat) (o : op) (s : sst) : sst :=
     match fuel with
@@ -284,6 +285,7 @@ Section Sys.
                              match ins with
                              | Query _ => Some q
                              | Lock => Some pt_lock
+                             | Get => Some pt_get
                              | Return => if after_unlock then Some pt_unlock else None
                              | _ => None
                              end in
@@ -294,7 +296,7 @@ Section Sys.
                        end
                    end
                end) 400 0 false (emit (note s id) (SpawnLookup k))
-        | ORegister id ups inj =>
+        | ORegister id ups inj inj2 =>
             let i := ntid (sstate s) in
             (fix drive (n : nat) (s : sst) {struct n} : sst :=
                match n with
@@ -307,7 +309,8 @@ Section Sys.
                        | [] => s
                        | ins :: _ =>
                            let s1 := match ins with Clear _ => run_ops inj s | _ => s end in
-                           drive n' (emit s1 (Step i))
+                           let s2 := emit s1 (Step i) in
+                           drive n' (match ins with Clear _ => run_ops inj2 s2 | _ => s2 end)
                        end
                    end
                end) 50 (emit (note s id) (SpawnRegister ups))
@@ -377,10 +380,11 @@ Fixpoint get_op (fuel : nat) (v : val) : option op :=
                                         | _ => None
                                         end) inj in
           Some (OLookup id k inj)
-      | VL [VI 1%Z; id; ups; VL inj] =>
+      | VL [VI 1%Z; id; ups; VL inj; VL inj2] =>
           olet id := get_N id in olet ups := get_list_of get_update ups in
           olet inj := map_opt (get_op f) inj in
-          Some (ORegister id ups inj)
+          olet inj2 := map_opt (get_op f) inj2 in
+          Some (ORegister id ups inj inj2)
       | _ => None
       end
   end.
@@ -424,7 +428,7 @@ Fixpoint op_keys (fuel : nat) (o : op) : list key :=
   | S f =>
       match o with
       | OLookup _ k inj => k :: flat_map (fun e => flat_map (op_keys f) (snd e)) inj
-      | ORegister _ _ inj => flat_map (op_keys f) inj
+      | ORegister _ _ inj inj2 => flat_map (op_keys f) inj ++ flat_map (op_keys f) inj2
       end
   end.
 
